@@ -108,6 +108,10 @@ def path(n):
     return sym(n, [(i, i + 1) for i in range(n - 1)])
 
 
+def star_w():
+    return sym(4, [(0, 1), (0, 2), (0, 3)], w=[1, 3, 7])
+
+
 def rand_strong(rs, n, wmax):
     p = rs.permutation(n)
     A = np.zeros((n, n))
@@ -125,9 +129,10 @@ def gen_cases(rs, tier):
     quick = tier != 'thorough'
     cases = []
 
-    def add(fam, A, kind='und', ds=DAMP, falff=None):
+    def add(fam, A, kind='und', ds=DAMP, falff=None, den=1):
+        """A holds integer numerators; the real routines are called on A / den (den a power of two: exact in floats)"""
         A = np.asarray(A, dtype=float)
-        cases.append({'fam': fam, 'kind': kind, 'A': A.astype(int).tolist(), 'd': list(ds), 'falff': falff})
+        cases.append({'fam': fam, 'kind': kind, 'A': A.astype(int).tolist(), 'den': int(den), 'd': list(ds), 'falff': falff})
 
     # every connected labelled graph n<=5 (thorough); one representative per isomorphism class + a random labelled slice (quick)
     seen = set()
@@ -199,6 +204,46 @@ def gen_cases(rs, tier):
     if not quick:
         for A in all_graphs(3, True):
             add('any-dir3', A, kind='dirany')
+    # ---- rational weights k/den (den = 2,4,8,16): row / column strengths strictly between 0 and 1
+    def frac_und(n, den, shape):
+        while True:
+            if shape == 'tree':
+                E = [(int(rs.randint(v)), v) for v in range(1, n)]
+            elif shape == 'cycle':
+                E = [(i, (i + 1) % n) for i in range(n)]
+            else:
+                E = [(i, j) for i in range(n) for j in range(i + 1, n) if rs.rand() < 0.5]
+            A = sym(n, E, w=[int(rs.randint(1, max(2, den // 2))) for _ in E]) if E else np.zeros((n, n))
+            if is_connected(A):
+                return A
+    for t in range(36 if quick else 240):
+        n = int(rs.randint(3, 7)); den = int(rs.choice([2, 4, 8, 16]))
+        A = frac_und(n, den, ('tree', 'cycle', 'sparse')[t % 3])
+        f = [int(x) for x in rs.randint(1, 5, size=n)] if t % 3 == 1 else None
+        add('frac-und', A, ds=(DAMP[t % 3],), falff=f, den=den)
+    for t in range(16 if quick else 100):      # heavy core + weakly attached pendant nodes
+        m = int(rs.randint(3, 5)); den = int(rs.choice([4, 8, 16]))
+        core = complete(m) * den * int(rs.randint(1, 3))
+        n = m + int(rs.randint(1, 3))
+        A = np.zeros((n, n)); A[:m, :m] = core
+        for v in range(m, n):
+            u = int(rs.randint(v)); w = int(rs.randint(1, den // 2))
+            A[u, v] = A[v, u] = w
+        add('frac-pendant', A, ds=(DAMP[t % 3],), den=den)
+    for t in range(36 if quick else 240):      # weak directed cycles (+ weak chords): strongly connected, strengths < 1
+        n = int(rs.randint(3, 7)); den = int(rs.choice([4, 8, 16]))
+        p_ = rs.permutation(n)
+        A = np.zeros((n, n))
+        for q in range(n):
+            A[p_[q], p_[(q + 1) % n]] = int(rs.randint(1, den // 2))
+        if t % 2:
+            extra = (rs.rand(n, n) < 0.25) * rs.randint(1, max(2, den // 4), size=(n, n))
+            np.fill_diagonal(extra, 0)
+            A = np.where(A > 0, A, extra)
+        f = [int(x) for x in rs.randint(1, 4, size=n)] if t % 4 == 0 else None
+        add('frac-dir', A, kind='dir', ds=(DAMP[t % 3],), falff=f, den=den)
+    for (G, den) in [(cycle(4), 2), (cycle(5), 8), (kab(2, 3), 4), (path(4), 16), (star_w(), 8), (disjoint(cycle(3), cycle(4)), 8)]:
+        add('frac-sym', G, den=den)
     return cases
 
 
@@ -247,12 +292,15 @@ def fr(x):
 def run_case(c):
     bct = import_bct()
     import scipy.linalg as sla
-    A = np.array(c['A'], dtype=float); n = len(A); kind = c['kind']
+    den = int(c.get('den', 1))
+    Anum = np.array(c['A'], dtype=float)
+    A = Anum / den; n = len(A); kind = c['kind']
     und = kind == 'und'
     conn = is_connected(A) if und else (kind == 'dir')
     out = {'fails': [], 'lines': [], 'timeouts': 0, 'ops': []}
     F = out['fails']
-    mstr = mat_str(A)
+    mstr = mat_str(Anum)
+    dstr = '' if den == 1 else ' den=%d' % den
 
     def fail(func, pred, info):
         F.append((func, pred, info))
@@ -288,7 +336,7 @@ def run_case(c):
                     fail('mean_first_passage_time', 'mfpt-diagonal', {'diag': np.diag(M).tolist()})
                 if (M[off] < 1 - 1e-9).any():
                     fail('mean_first_passage_time', 'mfpt-at-least-one-step', {'M': M.tolist()})
-                out['lines'].append(('mfpt', 'mfpt n=%d A=%s' % (n, mstr), {'M': M.ravel().tolist()}))
+                out['lines'].append(('mfpt', 'mfpt n=%d A=%s%s' % (n, mstr, dstr), {'M': M.ravel().tolist()}))
             de = guarded('diffusion_efficiency', bct.diffusion_efficiency, A.copy())
             if de is not None and M.shape == (n, n) and np.all(np.isfinite(M)):
                 g, E = de; E = np.asarray(E, dtype=float)
@@ -300,7 +348,7 @@ def run_case(c):
                     fail('diffusion_efficiency', 'diffeff-diagonal', {'diag': np.diag(E).tolist()})
                 elif not close(g, E[off].mean()):
                     fail('diffusion_efficiency', 'diffeff-mean', {'g': float(g), 'mean': float(E[off].mean())})
-                out['lines'].append(('diffeff', 'diffeff n=%d A=%s' % (n, mstr), {'g': float(g), 'E': E.ravel().tolist()}))
+                out['lines'].append(('diffeff', 'diffeff n=%d A=%s%s' % (n, mstr, dstr), {'g': float(g), 'E': E.ravel().tolist()}))
 
     # ---- PageRank
     deg = A.sum(0)
@@ -328,7 +376,7 @@ def run_case(c):
                     fail('pagerank_centrality', 'pagerank-positive', dict(cond, r=r.tolist()))
             elif (r < -1e-15).any():
                 fail('pagerank_centrality', 'pagerank-positive', dict(cond, r=r.tolist()))
-            line = 'pagerank n=%d A=%s d=%s' % (n, mstr, fr(d)) + ('' if f is None else ' f=' + ','.join(str(x) for x in f))
+            line = 'pagerank n=%d A=%s%s d=%s' % (n, mstr, dstr, fr(d)) + ('' if f is None else ' f=' + ','.join(str(x) for x in f))
             out['lines'].append(('pagerank', line, {'r': r.tolist()}))
 
     # ---- spectral measures (undirected)
@@ -340,7 +388,8 @@ def run_case(c):
             ref = np.diag(sla.expm(A))
             if Cs.shape != (n,) or not close(Cs, ref):
                 fail('subgraph_centrality', 'expm-diagonal', {'Cs': np.asarray(Cs).tolist(), 'expm_diag': ref.tolist()})
-            out['lines'].append(('expdiag', 'expdiag n=%d A=%s terms=%d' % (n, mstr, n_terms(A)), {'S': np.asarray(Cs, dtype=float).tolist()}))
+            if den == 1:
+              out['lines'].append(('expdiag', 'expdiag n=%d A=%s terms=%d' % (n, mstr, n_terms(A)), {'S': np.asarray(Cs, dtype=float).tolist()}))
         v = guarded('eigenvector_centrality_und', bct.eigenvector_centrality_und, A.copy())
         if v is not None:
             v = np.asarray(v)
@@ -360,7 +409,8 @@ def run_case(c):
                 Av = A @ v
                 exp = {'nrm2': float(v @ v), 'vmin': float(v.min()), 'ray': float(v @ Av / (v @ v)) if v @ v > 0 else None,
                        'lam': lam, 'conn': bool(conn)}
-                out['lines'].append(('eigcert', 'eigcert n=%d A=%s v=%s' % (n, mstr, ','.join(fr(x) for x in v)), exp))
+                if den == 1:
+                  out['lines'].append(('eigcert', 'eigcert n=%d A=%s v=%s' % (n, mstr, ','.join(fr(x) for x in v)), exp))
 
     # ---- findwalks (binary directed / undirected; weights discarded)
     if n >= 2:
@@ -449,7 +499,7 @@ def main():
     ck = Check(PID)
     ck.cov['rule'] = ('cases = (graph, damping d, prior f): every connected labelled graph on <=5 nodes (thorough; one per isomorphism class plus a random '
                       'labelled slice in quick), all graphs on <=4 nodes, cycles, K_{a,b}, regular graphs (circulants, K_n, cube, Petersen), disjoint copies, '
-                      'random weighted connected undirected and strongly connected directed graphs n=3..6, d in {.5,.85,.99}; each case is run through '
+                      'random weighted connected undirected and strongly connected directed graphs n=3..6, rational weights k/den (den=2..16: trees, cycles, pendant nodes, weak directed cycles with row/column strengths in (0,1)), d in {.5,.85,.99}; each case is run through '
                       'every routine whose domain contains it; non-trivial = distinct (graph, d, f) with at least one edge on which at least one routine returned')
     ck.assumptions += ['random-walk measures only on connected undirected / strongly connected directed inputs; spectral measures on symmetric non-negative input',
                        'LAPACK / expm / libm are outside the proof: float results are compared with exact rational values at 1e-8 relative',
@@ -469,10 +519,10 @@ def main():
         ck.count('family:' + c['fam']); ck.count('n=%d' % len(A)); ck.count('timeouts', r['timeouts'])
         for o in r['ops']:
             ck.count('op:' + o)
-        ck.case(sample={'family': c['fam'], 'A': c['A'], 'd': c['d'], 'falff': c['falff'], 'routines': sorted(set(r['ops']))} if nontriv and c['fam'] in ('cycle', 'strong-dir', 'disjoint') else None,
-                nontrivial_key=digest([c['A'], c['d'], c['falff']]) if nontriv else None)
+        ck.case(sample={'family': c['fam'], 'A': c['A'], 'den': c.get('den', 1), 'd': c['d'], 'falff': c['falff'], 'routines': sorted(set(r['ops']))} if nontriv and c['fam'] in ('cycle', 'strong-dir', 'disjoint', 'frac-dir', 'frac-pendant') else None,
+                nontrivial_key=digest([c['A'], c.get('den', 1), c['d'], c['falff']]) if nontriv else None)
         for func, pred, info in r['fails']:
-            cond = {'family': c['fam']}
+            cond = {'family': c['fam'], 'den': c.get('den', 1)}
             ck.violation(func, pred, {'case': c, 'info': info}, cond)
         for op, line, exp in r['lines']:
             lines.append(line); meta.append((c, op, exp))
